@@ -26,6 +26,7 @@ LEVEL_TEXT = (
     "returned value in samplers that can be asked to redraw. The 1e-7 end-point tolerance of the grid itself is C15."
     " The snap's dtype rule (output buffer float64, never inherited from the input) is included, and Grid summaries of helpers are parametric in their arguments (a helper that snaps what it is given is Grid wherever it is called with the search space's grid)."
     ' Included: the model receives a private copy of the proposed batch (C02-R7 restricted to the batch), and no snapping table is looked up by the identity (`id()`) of a grid.'
+    " (R4) the SearchSpace is built from the caller's bounds / precision themselves (no transformed copy), which it keeps as private copies (C04-R10)."
 )
 TECHNIQUE = "typestate/provenance analysis over reaching definitions with class-hierarchy call resolution"
 
